@@ -607,6 +607,13 @@ operation on a candidate (not on the group itself), and every read-back state wa
                     }
                 }
             }
+            // coverage of the two situations the pre-fix tree got wrong
+            if ok && ob.grps.iter().any(|g| touched_groups.contains(&g.id) && ob.dead.iter().any(|(_, tv)| eval(&g.f, tv))) {
+                sink.bump("reevaluation_while_a_recycled_entry_matches");
+            }
+            if ok && ob.grps.iter().any(|g| ob.grps.iter().any(|h| h.id != g.id && touched_groups.contains(&h.id) && (g.dm.contains(&h.id) || prev.grps.iter().any(|pg| pg.id == g.id && pg.dm.contains(&h.id))))) {
+                sink.bump("dyngroup_entry_changed_while_member_of_another_group");
+            }
             prev = ob.clone();
             steps.push((op, ob));
         }
